@@ -456,7 +456,34 @@ def snapshot(inp):
     for k, v in (inp.items() if isinstance(inp, dict) else []):
         for path, arr in arrays_in(v, k):
             snap[path] = (arr, [x for x in arr.a.reshape(-1).tolist()], arr.a.shape)
+    snap["__flags__"] = dict(flags_in(inp))
     return snap
+
+
+_PLAIN = (bool, int, float, str, type(None))
+
+
+def flags_in(inp, prefix=None, depth=0, seen=None):
+    """(path, holder, attribute, value) for every plain-valued attribute (flags, modes, thresholds) of the quara objects among the inputs:
+    a call must not change its operands' configuration either"""
+    if seen is None:
+        seen = set()
+    items = inp.items() if isinstance(inp, dict) and prefix is None else [(prefix, inp)]
+    for k, v in items:
+        if id(v) in seen or depth > 3:
+            continue
+        seen.add(id(v))
+        if isinstance(v, (list, tuple)):
+            for i, x in enumerate(v):
+                yield from flags_in(x, f"{k}.{i}", depth + 1, seen)
+        elif isinstance(v, dict):
+            for kk, x in v.items():
+                yield from flags_in(x, f"{k}.{kk}", depth + 1, seen)
+        elif hasattr(v, "__dict__") and type(v).__module__.startswith("quara.objects") and \
+                type(v).__name__ not in ("CompositeSystem", "ElementalSystem", "MatrixBasis", "SparseMatrixBasis"):
+            for a, x in vars(v).items():
+                if isinstance(x, _PLAIN):
+                    yield f"{k}.{a}", (v, a, x)
 
 
 def arrays_in(v, prefix, depth=0, seen=None):
@@ -486,7 +513,16 @@ def arrays_in(v, prefix, depth=0, seen=None):
 
 def frame_clauses(inp, snap):
     out = []
-    for path, (arr, before, shp) in snap.items():
+    for path, (holder, attr, before) in snap.get("__flags__", {}).items():
+        after = getattr(holder, attr, None)
+        ok = type(after) is type(before) and after == before
+        if not ok:
+            out.append(Clause(f"frame/{path}", "true", False, None, f"attribute {path} of the operand is not modified (was {before!r}, is {after!r})"))
+    out.append(Clause("frame/operand-configuration", "true", True, None, "the call leaves the flags / modes / thresholds of its operands as they were"))
+    for path, item in snap.items():
+        if path == "__flags__":
+            continue
+        arr, before, shp = item
         after = arr.a.reshape(-1).tolist() if arr.a.shape == shp else None
         if after is None:
             out.append(Clause(f"frame/{path}", "true", False, None, f"argument {path} keeps its shape"))
@@ -640,6 +676,7 @@ def native_clauses(contract, Wn, cfg, vals):
     mk = Mk(Wn, env=vals)
     inp = contract.inputs(Wn, cfg, mk)
     before = {p: a.copy() for p, a in native_arrays(inp)}
+    flags_before = dict(flags_in(inp)) if contract.frame else {}
     try:
         out = contract.run(Wn, cfg, inp)
     except Exception as e:  # noqa
@@ -651,6 +688,11 @@ def native_clauses(contract, Wn, cfg, vals):
         for p, a in native_arrays(inp):
             ok = a.shape == before[p].shape and bool(_np.array_equal(a, before[p]))
             res[f"frame/{p}"] = (ok, "" if ok else f"argument {p} was modified: before {before[p].tolist()!r} after {a.tolist()!r}"[:400])
+        res["frame/operand-configuration"] = (True, "")
+        for p, (holder, attr, b) in flags_before.items():
+            a = getattr(holder, attr, None)
+            if not (type(a) is type(b) and a == b):
+                res[f"frame/{p}"] = (False, f"attribute {p} was {b!r}, is {a!r}")
     return out, res
 
 
